@@ -472,16 +472,16 @@ def skeletons(prop: str, tier: str) -> Tuple[List[Any], Dict[str, Any]]:
             am = am_chains(3, [("const", 0), ("var", "x"), ("var", "y"), kx]) + \
                 [t for t in am_chains(4, [("const", 0), kx]) if sk_size(t) > 9]
         else:
-            # sized to finish inside the thorough budget: all five leaf kinds for 3 leaves, three for 4 leaves
+            # sized to finish inside the thorough budget: all five leaf kinds for 3 leaves; x / k*x and const / k*x for 4 leaves
             am = am_chains(3, [("const", 0), ("var", "x"), ("var", "y"), kx, ("pow", ("var", "x"), ("const", 0))]) + \
-                [t for t in am_chains(4, [("const", 0), ("var", "x"), kx]) if sk_size(t) > 5]
+                [t for t in am_chains(4, [("var", "x"), kx]) + am_chains(4, [("const", 0), kx]) if sk_size(t) > 5]
         sks.extend(am)
         if tier == "quick":
             AM_ONLY.update(am)
         bounds["family_AM"] = (f"{len(am)} trees over + and * with 3-4 leaves from const / x / y / k*x (/ x^n): chained and regrouped "
                                "forms" + (" (4-leaf trees over const / k*x only; all rule-options except factor-out)" if tier == "quick" else ""))
         if tier != "quick":
-            sub = [t for t in family_B_subst([b for b in base if sk_size(b) <= 13]) if sk_size(t) <= 17]
+            sub = [t for t in family_B_subst([b for b in base if sk_size(b) <= 13]) if sk_size(t) <= 12]  # measured: larger ones cost ~1 s each
             sks.extend(sub)
             bounds["family_B_subst"] = f"{len(sub)} one-position substitutions by a 14-element subtree library"
             ctxs = []
@@ -558,7 +558,7 @@ def run(prop: str, tier: str) -> int:
         "every payload-dependent branch and the final query 'exists payloads, assignment: defined(before), defined(after), "
         "before != after' (C01) / 'solution sets differ' or 'a new divisor can be 0' (C02). states = feasible paths, "
         "transitions = solver-decided branch decisions.")
-    budget = 420 if tier == "quick" else 720
+    budget = 420 if tier == "quick" else 900
     rnd = random.Random(seed())
     rnd.shuffle(sks)
     use_grid("quick")  # the 25-value grid is used by C05/C08/C16 thorough; here the families grow instead
